@@ -195,6 +195,7 @@ def _shard(arg):
                 continue
             from vf.props import c02  # pylint: disable=import-outside-toplevel
             fields = [field for field in c02.numeric_fields(cls, seed) if field[1] in (4, 8)][:6]
+            fields += [field for field in mutate.small_u64_windows(seed) if field not in fields]
             if fields:
                 swept += 1
                 for name, data in mutate.field_sweeps(rng, seed, fields):
